@@ -282,8 +282,23 @@ CAP_ELECTRONS = {"H": 1, "F": 9, "CH3": 9, "NH2": 9}
 CAP_ATOMS = {"H": ["H"], "F": ["F"], "CH3": ["C", "H", "H", "H"], "NH2": ["N", "H", "H"]}
 
 
+SHARE_MODES = ["fresh", "fresh", "low=high", "system=model-low", "all-one"]
+
+
+def share_ids(mode, n_models):
+    """Options-slot ids (equal id + equal content -> the very same dict object is handed to Tangelo).
+    Returns (system id, [[low id, high id] per model])."""
+    if mode == "all-one":
+        return 0, [[0, 0] for _ in range(n_models)]
+    if mode == "low=high":
+        return 0, [[1 + k, 1 + k] for k in range(n_models)]
+    if mode == "system=model-low":
+        return 0, [[0, 1 + k] for k in range(n_models)]
+    return 0, [[1 + 2 * k, 2 + 2 * k] for k in range(n_models)]
+
+
 @st.composite
-def model_fragments(draw, sysd, allow_links=True):
+def model_fragments(draw, sysd, allow_links=True, prefer_basis=None):
     """One ONIOM model fragment with identical low and high levels: selection (int or index list in any order),
     optional links, a solver that is well defined on the capped model, one basis used for both levels."""
     from hypothesis import assume
@@ -317,8 +332,17 @@ def model_fragments(draw, sysd, allow_links=True):
     # spread evenly over the solvers that are possible, then over bases
     solvers = sorted({c[0] for c in cands})
     solver = draw(st.sampled_from(solvers))
-    basis = draw(st.sampled_from([b for s_, b in cands if s_ == solver]))
-    return {"sel": sel, "links": links, "solver": solver, "basis": basis, "charge": 0, "spin": spin}
+    bases = [b for s_, b in cands if s_ == solver]
+    if prefer_basis in bases and draw(st.integers(0, 3)) > 0:
+        basis = prefer_basis
+    else:
+        nondefault = [b for b in bases if b != "sto-3g"]
+        basis = draw(st.sampled_from(nondefault if (nondefault and draw(st.booleans())) else bases))
+    # frozen_orbitals in the options (same for both levels, so it cancels): first MO frozen, closed-shell models only
+    frozen = None
+    if spin == 0 and solver in ("CCSD", "FCI") and ne >= 4 and draw(st.integers(0, 3)) == 0:
+        frozen = 1
+    return {"sel": sel, "links": links, "solver": solver, "basis": basis, "charge": 0, "spin": spin, "frozen": frozen}
 
 
 @st.composite
@@ -330,9 +354,12 @@ def oniom_same_cases(draw, tier):
              if solver_ok(s, symbols, b, sysd["charge"], sysd["spin"]) and n_orbitals(symbols, b) <= 16]
     assume(cands)
     low = draw(st.sampled_from(sorted({c[0] for c in cands})))
-    lb = draw(st.sampled_from([b for s, b in cands if s == low]))
-    models = [draw(model_fragments(sysd)) for _ in range(draw(st.sampled_from([1, 1, 2])))]
-    return {"sys": sysd, "low": low, "low_basis": lb, "models": models,
+    share = draw(st.sampled_from(SHARE_MODES))
+    lbs = [b for s, b in cands if s == low]
+    nondefault = [b for b in lbs if b != "sto-3g"]
+    lb = draw(st.sampled_from(nondefault if (nondefault and share != "fresh" and draw(st.integers(0, 3)) > 0) else lbs))
+    models = [draw(model_fragments(sysd, prefer_basis=lb if share != "fresh" else None)) for _ in range(draw(st.sampled_from([1, 1, 2])))]
+    return {"sys": sysd, "low": low, "low_basis": lb, "models": models, "share": share, "twice": draw(st.integers(0, 3)) == 0,
             "order": draw(st.sampled_from(["system-first", "system-last"])),
             "geom_format": draw(st.sampled_from(["list", "list", "string"]))}
 
@@ -347,13 +374,18 @@ def oniom_whole_cases(draw, tier):
              if solver_ok(s, symbols, b, sysd["charge"], sysd["spin"]) and n_orbitals(symbols, b) <= 16]
     assume(len(cands) >= 2)
     low = draw(st.sampled_from(sorted({c[0] for c in cands})))
-    lb = draw(st.sampled_from([b for s, b in cands if s == low]))
+    share = draw(st.sampled_from(SHARE_MODES))
+    lbs = [b for s, b in cands if s == low]
+    nondefault = [b for b in lbs if b != "sto-3g"]
+    lb = draw(st.sampled_from(nondefault if (nondefault and share != "fresh" and draw(st.integers(0, 3)) > 0) else lbs))
     high = draw(st.sampled_from(sorted({c[0] for c in cands})))
-    hb = draw(st.sampled_from([b for s, b in cands if s == high]))
+    hbs = [b for s, b in cands if s == high]
+    hb = lb if (share in ("low=high", "all-one") and lb in hbs and draw(st.booleans())) else draw(st.sampled_from(hbs))
     form = draw(st.sampled_from(["list", "list", "list", "int", "none"]))
     sel = list(draw(st.permutations(list(range(n))))) if form == "list" else (n if form == "int" else None)
-    extras = [draw(model_fragments(sysd, allow_links=False))] if draw(st.integers(0, 3)) == 0 else []
+    extras = [draw(model_fragments(sysd, allow_links=False, prefer_basis=lb if share != "fresh" else None))] if draw(st.integers(0, 3)) == 0 else []
     return {"sys": sysd, "low": low, "low_basis": lb, "high": high, "high_basis": hb, "sel": sel, "extras": extras,
+            "share": share, "twice": draw(st.integers(0, 3)) == 0,
             "order": draw(st.sampled_from(["system-first", "system-last"])),
             "geom_format": draw(st.sampled_from(["list", "list", "string"]))}
 
